@@ -32,25 +32,25 @@ GI = lambda name, cfgname: G(name, f"Gen_Inst_{cfgname}.cfg", module="Gen_Inst.t
 
 PLAN = {
     "C01": {
-        "mc": [MC_POLY],
+        "mc": [MC_POLY], "lift_every": 17,
         "gen": [G("eval", "Gen_Fn_Eval.cfg")],
         "drive": [D("eval_fn", 3000, 300000)],
         "exhaustive_note": "all function messages with <=3 linear terms / <=2 quadratic entries (+optional linear part) / <=2 monomials of length <=3 over ids {1,2}, coefficients {-1,0,2,1/2}, x 9 states (6 complete, 3 missing a variable) x 2 entry points",
     },
     "C02": {
-        "mc": [MC_POLY],
+        "mc": [MC_POLY], "lift_every": 17,
         "gen": [G("arith", "Gen_Fn_Arith.cfg"), G("arithdeep", "Gen_Fn_ArithDeep.cfg", tier="thorough"), G("fninfo", "Gen_Fn_FnInfo.cfg"),
                 G("fmt", "Gen_Fn_Fmt.cfg"), G("ctor", "Gen_Fn_Ctor.cfg")],
         "drive": [D("arith", 3000, 300000)],
         "exhaustive_note": "every (op, lhs kind, rhs kind) the API defines (107 + 7 negations) x a thin operand family per kind (incl. quadratics listing a pair in both triangles, decision variables of every kind)",
     },
     "C03": {
-        "mc": [MC_POLY, MC_INST],
+        "mc": [MC_POLY, MC_INST], "lift_every": 17,
         "gen": [G("partial", "Gen_Fn_Partial.cfg")],
         "drive": [D("partial_fn", 3000, 200000), D("commute", 800, 40000)],
     },
     "C04": {
-        "mc": [MC_POLY, MC_INST, MC_EVALDEPS],
+        "mc": [MC_POLY, MC_INST, MC_EVALDEPS], "lift_every": 17,
         "gen": [G("subst", "Gen_Fn_Subst.cfg")],
         "drive": [D("subst_fn", 2000, 100000), D("inst_subst", 800, 40000), D("deps_order", 300, 5000), D("chain_encode", 300, 10000)],
     },
@@ -104,7 +104,7 @@ PLAN = {
         "exhaustive_note": "all sample sets over <= 3 ids with objectives {0,1}, every feasibility pattern, both senses, current and legacy layout, objectives stored per id or grouped by value, direct and through encode/decode",
     },
     "C16": {
-        "mc": [MC_INTERVAL],
+        "mc": [MC_INTERVAL], "lift_every": 17,
         "gen": [G("bound", "Gen_Fn_Bound.cfg"), G("contains", "Gen_Fn_Contains.cfg"), G("evalbound", "Gen_Fn_EvalBound.cfg"), G("content", "Gen_Fn_Content.cfg")],
         "drive": [D("eval_bound", 2000, 100000), D("content_factor", 2000, 100000)],
         "exhaustive_note": "all 43 valid intervals over {-inf,-3,-1,-1/2,0,1/2,1,2,+inf}: all pairs for + and x, exponents 0..6, 4 scalings",
